@@ -11,6 +11,7 @@ def run(ctx):
     if rows is None:
         return
     A.coverage(ctx, rows)
+    A.report_crashes(ctx)
     A.fetch_height_compare(ctx, "cases_C09_fh")
     nmon, classes = A.monitors(ctx, rows, "C09")
     ctx.cov["monitor_findings"] = classes
